@@ -1500,6 +1500,7 @@ func c06RaceCases(t *testing.T, em *Emitter) {
 		m := tierN(3000, 30000)
 		em.Emit("stress", c06RaceInput{Kind: "coordinator-read-race", Trials: m}, c06RaceImpl{Lost: c06CoordReadRace(t, m)})
 	}
+	c06LinCases(t, em)
 	if em.prop == "C06" {
 		k := tierN(2000, 20000)
 		em.Emit("stress", c06RaceInput{Kind: "coordinator-poll-race", Trials: k}, c06RaceImpl{Lost: c06PollRace(t, k)})
@@ -1529,6 +1530,11 @@ func c06RunAll(t *testing.T, prop string, edge []c06Input, gen func(r *Rng, em *
 		var cc c06CapInput
 		if json.Unmarshal(raw, &cc) == nil && cc.Kind == "capacity" {
 			em.Emit(names[i], cc, c06Capacity(t, cc))
+			continue
+		}
+		var lc c06LinInput
+		if json.Unmarshal(raw, &lc) == nil && lc.Kind == "batch-race" {
+			em.Emit(names[i], lc, c06LinRace(t, lc))
 			continue
 		}
 		var rc c06RaceInput
